@@ -564,10 +564,11 @@ func runC11(c *core.Ctx) error {
 		if q && n == 4 && !pick(it.raw, 4) {
 			continue
 		}
-		h := int((c11Hash(string(it.raw)) + seed) % 6)
-		nv := c.Pick(2, 6)
+		nvar := len(c11SortVariants)
+		h := int((c11Hash(string(it.raw)) + seed) % uint64(nvar))
+		nv := c.Pick(2, nvar)
 		for k := 0; k < nv; k++ {
-			add(c11RenderSort(it.rec, it.raw, (h+k*(7-nv))%6), false)
+			add(c11RenderSort(it.rec, it.raw, (h+k*(nvar+1-nv))%nvar), false)
 		}
 	}
 	for _, k := range []string{"map", "fields", "fmt", "reader"} {
